@@ -38,7 +38,8 @@ def tensor_spec(draw, max_order=4):
     cols = [draw(st.sampled_from([1, 2, 2, 3])) for _ in range(d)] if op else [1] * d
     kind = draw(st.sampled_from(['gauss', 'gauss', 'lowrank', 'lowrank_noise', 'lowrank_noise', 'decay', 'decay', 'zero']))
     return {'rows': rows, 'cols': cols, 'kind': kind, 'cplx': draw(st.booleans()), 'seed': draw(gen.SEED),
-            'rank': draw(st.integers(1, 3)), 'noise_exp': draw(st.integers(-10, -1)), 'decay': draw(st.sampled_from([0.5, 0.1, 0.01]))}
+            'rank': draw(st.integers(1, 3)), 'noise_exp': draw(st.integers(-10, -1)), 'decay': draw(st.sampled_from([0.5, 0.1, 0.01])),
+            'scale_exp': draw(st.sampled_from([0, 0, 0, -9, -14, 7]))}
 
 
 def make_tensor(ts):
@@ -68,7 +69,7 @@ def make_tensor(ts):
             x = x + ts['decay'] ** j * lowrank(1) / np.sqrt(np.prod(shape))
     else:
         x = np.zeros(shape, dtype=complex if ts['cplx'] else float)
-    return x
+    return x * 10.0 ** ts.get('scale_exp', 0)      # relative thresholds and the bounds are scale-invariant
 
 
 def unfold_spectra(x, rows, cols):
@@ -148,6 +149,8 @@ def body_array(case):
         lab.add('order1')
     if any(c > 1 for c in cols):
         lab.add('operator')
+    if ts.get('scale_exp', 0):
+        lab.add('rescaled')
     for k in range(1, d):
         require(t.ranks[k] <= caps[k], 'rank_cap', 'rank %d is %d > cap %s' % (k, t.ranks[k], caps[k]))
     y = dense.contract(t.cores)
